@@ -100,6 +100,15 @@ def check(ai: int, fwd: bool) -> bool:
                 xtuml.relate(insts[k], insts[k - 1], 1, 'precedes')
             for k in range(N - 1, 0, -1):
                 xtuml.unrelate(insts[k], insts[k - 1], 1, 'precedes')
+            # ... relates that were REJECTED (second partner for a single-valued end) and must have left nothing behind
+            if N >= 3:
+                xtuml.relate(insts[0], insts[1], 1, 'precedes')
+                for x_, y_, ph_ in ((insts[2], insts[1], 'precedes'), (insts[1], insts[2], 'succeeds'), (insts[0], insts[2], 'precedes')):
+                    try:
+                        xtuml.relate(x_, y_, 1, ph_)
+                    except xtuml.RelateException:
+                        pass
+                xtuml.unrelate(insts[0], insts[1], 1, 'precedes')
             # ... and members that were linked on BOTH sides to an instance that has been deleted since
             for k in range(0, N - 1, 2):
                 x = m.new(KIND, Name='gone%d' % k)
